@@ -172,8 +172,19 @@ def origin_of_place(fn, place, depth=12, _seen=None):
                     # only the definitions that build this variant can reach a read of its payload
                     lit = [k for k in s0.kids if k.strip().k == "agg" and "::" in str(k.strip().a)]
                     keep = [k for k in s0.kids if not (k.strip().k == "agg" and "::" in str(k.strip().a) and not str(k.strip().a).endswith("::%s" % vn))]
+                    if str(vn) in ("Ok", "Some"):
+                        # what `?` hands back is the failure variant: never the value whose success payload is read
+                        keep = [k for k in keep if not (k.strip().k == "call" and k.strip().a.get("name") == "from_residual")]
                     if lit and keep and len(keep) < len(s0.kids):
                         o = keep[0] if len(keep) == 1 else Origin("phi", s0.a, keep)
+                # `x?`: the Continue payload of Try::branch(x) is the success payload of x itself
+                s1 = o.strip()
+                if str(vn) == "Continue" and s1.k == "call" and s1.a.get("name") == "branch" and "Try" in str(s1.a.get("callee", "")) and s1.kids:
+                    inst = str(s1.a.get("inst") or "").lstrip("<")
+                    if inst.startswith(("std::result::Result", "core::result::Result", "Result<")):
+                        o, vn = s1.kids[0], "Ok"
+                    elif inst.startswith(("std::option::Option", "core::option::Option", "Option<")):
+                        o, vn = s1.kids[0], "Some"
                 o = Origin("variant", vn, [o])
             elif "cidx" in e:
                 o = Origin("index", None, [o, Origin("const", {"k": "int", "v": e["cidx"], "from_end": e["from_end"]})])
@@ -397,6 +408,11 @@ def norm_guards(gs):
             continue
         # integer / discriminant switch
         labs = gd["labels"]
+        # `a.checked_sub(c)` is None exactly when a < c, Some when a >= c (unsigned): the comparison it abbreviates
+        if core.k == "discr" and core.kids and labs and len(labs) == 1 and labs[0] in (0, 1):
+            inner = core.kids[0].strip()
+            if inner.k == "call" and inner.a["name"] == "checked_sub" and len(inner.kids) == 2 and "num::" in str(inner.a.get("callee", "")):
+                out.append({"rel": "lt" if labs[0] == 0 else "ge", "a": inner.kids[0], "b": inner.kids[1], "gd": gd})
         if labs and labs != ["else"] and all(isinstance(l, int) for l in labs) and len(labs) == 1:
             out.append({"rel": "eq", "a": core, "b": Origin("const", {"v": labs[0], "k": "int"}), "gd": gd})
         elif labs == ["else"]:
@@ -795,6 +811,17 @@ def mentioned_later(fn):
     return live
 
 
+def residual_variant(t):
+    """for a call of FromResidual::from_residual: (name, discriminant) of the variant it builds — Err for a Result, None
+    for an Option — read off the instantiation"""
+    inst = (t.j.get("callee_inst") or "").lstrip("<")
+    if inst.startswith("std::result::Result") or inst.startswith("core::result::Result") or inst.startswith("Result<"):
+        return ("Result::Err", 1)
+    if inst.startswith("std::option::Option") or inst.startswith("core::option::Option") or inst.startswith("Option<"):
+        return ("Option::None", 0)
+    return None
+
+
 def event_graph(fn, role_of, ret_local=0, max_states=40000, branch_role=None, stmt_role=None):
     """Quotient of the CFG on event blocks.
     role_of(term) -> role string or None for call terminators.
@@ -867,7 +894,7 @@ def event_graph(fn, role_of, ret_local=0, max_states=40000, branch_role=None, st
                 elif s.rv.k == "use" and s.rv.ops and s.rv.ops[0].place is not None and s.rv.ops[0].place.is_local():
                     # moves keep the knowledge
                     for kl, kv in kb:
-                        if kl == s.rv.ops[0].place.local and isinstance(kv, tuple):
+                        if kl == s.rv.ops[0].place.local and (isinstance(kv, tuple) or (isinstance(kv, bool) and fn.local_name(ll) is None and ll not in mut_borrowed(fn))):
                             kb = kb | {(ll, kv)}
                 # the literal an unnamed temporary holds (so that `tmp = Err(X); _0 = move tmp` returns Err(X))
                 if s.rv.k == "agg" and s.rv.j.get("ak") == "adt" and fn.local_name(ll) is None and ll != ret_local and ll not in mut_borrowed(fn):
@@ -895,10 +922,18 @@ def event_graph(fn, role_of, ret_local=0, max_states=40000, branch_role=None, st
                         for kl, kv in kb:
                             if kl == src_local and isinstance(kv, tuple) and kv[0] == "abs":
                                 retv = kv[1]
+                            elif kl == src_local and isinstance(kv, bool):
+                                retv = "const:%s" % kv
                 if is_alias or is_discr:
                     aliases.add(l)
+                    srcl = src_local if is_alias and src_local is not None else (rv.place.local if is_discr else (rv.ops[0].place.local if rv.ops and rv.ops[0].place is not None else None))
+                    if srcl is not None and ("flip", srcl) in aliases:
+                        aliases.add(("flip", l))
+                    else:
+                        aliases.discard(("flip", l))
                 elif l in aliases:
                     aliases.discard(l)
+                    aliases.discard(("flip", l))
                 if rv.k == "un" and rv.j["op"] == "Not" and rv.ops[0].place is not None and rv.ops[0].place.is_local() and rv.ops[0].place.local in aliases:
                     aliases.add(l)
                     if l == ret_local:
@@ -908,6 +943,11 @@ def event_graph(fn, role_of, ret_local=0, max_states=40000, branch_role=None, st
             decided = frozenset(x for x in decided if x[0][1] != t.dest.local)
         if kb and t.k == "call" and t.dest is not None:
             kb = frozenset(x for x in kb if x[0] != t.dest.local)
+        # the value `?` returns early with is the failure variant of the function's own result type
+        if t.k == "call" and t.dest is not None and t.dest.is_local() and t.j.get("callee_name") == "from_residual":
+            rv_ = residual_variant(t)
+            if rv_ is not None and t.dest.local not in mut_borrowed(fn):
+                kb = kb | {(t.dest.local, ("variant", rv_[1])), (t.dest.local, ("abs", "agg:%s" % rv_[0]))}
         if bb in ev_blocks:
             node = ("ev", bb, ev_blocks[bb])
             g.add(src, label, node)
@@ -959,9 +999,13 @@ def event_graph(fn, role_of, ret_local=0, max_states=40000, branch_role=None, st
                     if (lab == 0) == (known is False) and (lab == 0 or lab == "else"):
                         work.append((tgt, (src, frozenset(aliases), label, retv, decided, kb)))
                 continue
+            flipped = on_result and ("flip", t.discr.place.local) in aliases
             for lab, tgt in switch_edges(fn, bb):
                 if on_result:
-                    nl = (label + "," if label else "") + str(lab)
+                    # `opt?` switches on ControlFlow (Continue = 0) where a match on the Option itself has Some = 1:
+                    # the label is that of the Option
+                    lab_ = (1 - lab) if flipped and lab in (0, 1) else lab
+                    nl = (label + "," if label else "") + str(lab_)
                 else:
                     nl = label
                 work.append((tgt, (src, frozenset(aliases), nl, retv, decided, kb)))
@@ -970,10 +1014,17 @@ def event_graph(fn, role_of, ret_local=0, max_states=40000, branch_role=None, st
             if t.dest is not None and t.dest.is_local():
                 aliases.discard(t.dest.local)
                 # `?`: Try::branch(result) keeps the outcome (0 = Continue/Ok, 1 = Break/Err)
+                aliases.discard(("flip", t.dest.local))
                 if t.j.get("callee_name") == "branch" and t.args and t.args[0].place is not None and t.args[0].place.is_local() and t.args[0].place.local in aliases:
                     aliases.add(t.dest.local)
+                    inst_ = (t.j.get("callee_inst") or "").lstrip("<")
+                    if inst_.startswith(("std::option::Option", "core::option::Option", "Option<")) != (("flip", t.args[0].place.local) in aliases):
+                        aliases.add(("flip", t.dest.local))
                 if t.dest.local == ret_local:
                     retv = "call:%s" % short(t.callee)
+                    rv_ = residual_variant(t) if t.j.get("callee_name") == "from_residual" else None
+                    if rv_ is not None:
+                        retv = "agg:%s" % rv_[0]          # `?` returns the failure variant: same as `return Err(..)`
             if t.target is not None:
                 work.append((t.target, (src, frozenset(aliases), label, retv, decided, kb)))
             continue
@@ -1229,6 +1280,32 @@ def expand_single_def_vars(fn, o, depth=3):
             return expand_single_def_vars(fn, _origin_of_def(fn, ds[0], 10, {o.a["local"]}), depth - 1)
         return o
     return Origin(o.k, o.a, [expand_single_def_vars(fn, k, depth) for k in o.kids], o.bb)
+
+
+def resolve_promoted(fn, o):
+    """a reference to a promoted constant of some function (`&CONST`, `&"lit"` hoisted by the compiler) -> the constant
+    it evaluates to, when that is a literal; otherwise the node unchanged"""
+    if not isinstance(o, Origin):
+        return o
+    if o.k == "const" and isinstance(o.a, dict) and o.a.get("unevaluated") and isinstance(o.a.get("text"), str) and "::promoted[" in o.a["text"]:
+        prog = getattr(fn, "prog", None)
+        owner, _, idx = o.a["text"].rpartition("::promoted[")
+        try:
+            i = int(idx.rstrip("]"))
+        except ValueError:
+            return o
+        of = None
+        if prog is not None:
+            of = prog.fns.get(owner) or prog.absorbed.get(owner)
+        if of is None and fn.path == owner:
+            of = fn
+        if of is not None and i < len(of.promoted):
+            pf = of.promoted_fn(i)
+            r = origin_of_local(pf, 0).strip()
+            if r.k == "const" and "v" in r.a:
+                return r
+        return o
+    return Origin(o.k, o.a, [resolve_promoted(fn, k) for k in o.kids], o.bb)
 
 
 def flatten_phi(o):
